@@ -126,7 +126,7 @@ def run(scn, stats):
         stats.sample({"definition": defn, "restore_points": sorted(tw.points), "history": common.history_summary(r, 40)})
 
 
-CFG = gen.cfg(items=0.2, retry=0.2, p_loop=0.3, retry_cmd=True, bad_vars=0.08)
+CFG = gen.cfg(items=0.2, retry=0.2, p_loop=0.3, retry_cmd=True, bad_vars=0.08, dict_vals=True)
 FLAGS = {"pause": 1, "cancel": 1, "pending": 1}
 
 
